@@ -44,6 +44,7 @@ func v01gRunSched(nvals int, compress bool, sched int) {
 		// schedules are the quantifier: two template combinations, EndStream
 		// nowhere or before the third value
 		verif.Schedules(sched)
+		verif.Races(true)
 		combo = verif.Choose("combo", 2)
 	} else {
 		verif.Goroutines(true)
